@@ -61,12 +61,25 @@ class FloorRecorder:
         return j
 
 
-def real_shuffle(layers, seed):
+def real_options(seed, resume_layer=None):
+    """a real options object (every attribute the code may read exists), as a parent or as the child for
+    `resume_layer`"""
+    from zope.testrunner.options import get_options
+    with contextlib.redirect_stdout(io.StringIO()):
+        options = get_options(["prog", "--shuffle", "--shuffle-seed=%d" % seed], [])
+    options.resume_layer = resume_layer
+    options.resume_number = 0 if resume_layer is None else 1
+    options.testrunner_defaults = []
+    return options
+
+
+def real_shuffle(layers, seed, resume_layer=None):
     """layers: list of (name, [ids]) in dict insertion order.  Returns (result layers, js, reported)."""
     from zope.testrunner import shuffle
     out = Output()
     runner = types.SimpleNamespace()
-    runner.options = types.SimpleNamespace(shuffle=True, shuffle_seed=seed, output=out)
+    runner.options = real_options(seed, resume_layer)
+    runner.options.output = out
     runner.tests_by_layer_name = {}
     for name, ids in layers:
         runner.tests_by_layer_name[name] = unittest.TestSuite([T(i) for i in ids])
@@ -140,6 +153,21 @@ def run(ctx):
         res3, _, _, _ = real_shuffle(rev, seed)
         if dict(res3) != dict(res):
             ctx.violation("order depends on discovery order of the layers", case, signature="layer-order")
+            continue
+        # a child process (--resume-layer) must arrive at the parent's order for its layer (it shuffles
+        # before the filter drops the other layers)
+        bad_child = None
+        for name, ids in res:
+            if len(ids) < 2:
+                continue
+            res4, _, _, _ = real_shuffle(layers, seed, resume_layer=name)
+            if dict(res4).get(name) != ids:
+                bad_child = (name, dict(res4).get(name))
+                break
+        if bad_child:
+            ctx.violation("the child process for layer %s orders its tests %r, the parent / listing / sequential run "
+                          "orders them %r (seed %r)" % (bad_child[0], bad_child[1], dict(res)[bad_child[0]], seed),
+                          case, signature="child-order")
             continue
         # index stream within bounds, expected length
         want = sum(max(0, len(i) - 1) for _, i in layers)
